@@ -54,6 +54,12 @@ def stdCollides : Nat → JVal → Bool
     (kvs.foldl (fun acc kv => mapSet acc (stdLibCompatibleString kv.1) .null) #[]).size < kvs.size || kvs.any (fun kv => stdCollides f kv.2)
   | _+1, _ => false
 
+/-- a handler written against the public API: read every array member with `ReadFloat64`, collect the bits, fail on
+    anything else (`Props/C08Decoders.lean` proves the decoder built from it correct; the driver runs it as `FloatArray`) -/
+def floatH : Handler (List Nat) := fun acc _ suffix =>
+  let r := readFloat64 suffix
+  if r.err.isNone && !r.panicked then (acc ++ [r.val], r.p, none) else (acc, 0, some 1)
+
 abbrev Readers := (Nat → Bytes → R JVal) × (Nat → Bytes → R JVal)
 
 /-- `readSimpleValue(data, tknType)` -/
